@@ -49,6 +49,11 @@ def body(led):
     # ... and the components are created with the definition the bay was given (density, laminates, geometry of the skin surface)
     from . import c13_bay
     c13_bay.check_constructors(led)
+    # ... and the mass matrix follows the definition after a checkpoint of the panel (Panel.save resets the object's matrices)
+    from . import c20, py_panel as _pp
+    it20, _calls = _pp.mk()
+    for geom in ('plate', 'cpanel'):
+        c20.check_after_save(led, it20, geom, ops=('calc_kM',))
     ok, _ = K.compare(real('mu') * 2, real('mu'))
     led.canary('2*mu vs mu', not ok)
 
